@@ -82,7 +82,8 @@ Proof. simpl. apply eqb_refl'. Qed.
 
 (* the stored policies are Kubernetes objects: their namespace and name are slash-free *)
 Definition cluster_wf (cl : cluster) : Prop :=
-  forall p, In p (cl_policies cl) -> valid_name (p_ns p) /\ valid_name (p_name p).
+  (forall p, In p (cl_policies cl) -> valid_name (p_ns p) /\ valid_name (p_name p)) /\
+  (forall d, In d (cl_dos cl) -> valid_name (d_ns d) /\ valid_name (d_name d)).
 
 (* validateMinionSpec rejects a minion with spec.tls, so an attached minion has none *)
 Definition resource_wf (r : resource) : Prop :=
@@ -98,7 +99,8 @@ Proof.
 Qed.
 
 Definition cluster_wfb (cl : cluster) : bool :=
-  forallb (fun p => valid_nameb (p_ns p) && valid_nameb (p_name p)) (cl_policies cl).
+  forallb (fun p => valid_nameb (p_ns p) && valid_nameb (p_name p)) (cl_policies cl) &&
+  forallb (fun d => valid_nameb (d_ns d) && valid_nameb (d_name d)) (cl_dos cl).
 
 (* ------------------------------------------------------------------ policies *)
 
@@ -106,7 +108,7 @@ Lemma get_policies_In cl refs owner pol :
   cluster_wf cl -> In pol (get_policies cl refs owner) ->
   In pol (all_policies cl) /\ is_policy_referenced refs owner (p_ns pol) (p_name pol) = true.
 Proof.
-  intros WF H. unfold get_policies in H. apply in_flat_map in H. destruct H as [r [Hr H]].
+  intros WF0 H. destruct WF0 as [WF _]. unfold get_policies in H. apply in_flat_map in H. destruct H as [r [Hr H]].
   destruct (lookup_policy cl (polref_key owner r)) as [q|] eqn:L; [|contradiction].
   destruct (p_class_ok q && p_valid q) eqn:V; [|contradiction].
   destruct H as [H|[]]. subst q.
@@ -283,10 +285,71 @@ Proof.
       * apply Seen. exact Href.
 Qed.
 
-Lemma dos_dep_In pd owner dos p k ky :
-  In (p, (k, ky)) (dos_dep pd owner dos) -> k = KDos /\ ky = nsname owner dos.
+(* the DoS chain: the DosProtectedResource itself, then its APDosPolicy / APDosLogConf *)
+Lemma dos_chain_kinds cl pd owner ref p k ky :
+  In (p, (k, ky)) (dos_chain cl pd owner ref) ->
+  (p = pd /\ k = KDos) \/ (p = PDosHop /\ (k = KDosPolicy \/ k = KDosLogConf)).
 Proof.
-  unfold dos_dep. destruct (nonempty dos); [|contradiction]. intros [H|[]]. inversion H; auto.
+  unfold dos_chain. intros [H|H].
+  - injection H as <- <- _. left. auto.
+  - right. unfold dos_hops in H. destruct (lookup_dos cl (nsname owner ref)) as [d|]; [|contradiction].
+    destruct (d_valid d); [|contradiction].
+    apply in_map_iff in H. destruct H as [x [E H]]. injection E as <- E. subst x.
+    apply take_until_fail_In in H. unfold dos_hop_items in H. apply in_app_or in H. destruct H as [H|H].
+    + destruct (nonempty (d_policy d)); [|contradiction]. destruct H as [H|[]]. injection H as <- _. auto.
+    + destruct (d_logconf d) as [l|]; [|contradiction]. destruct (nonempty l); [|contradiction].
+      destruct H as [H|[]]. injection H as <- _. auto.
+Qed.
+
+Lemma dos_dep_kinds cl pd owner ref p k ky :
+  In (p, (k, ky)) (dos_dep cl pd owner ref) ->
+  (p = pd /\ k = KDos) \/ (p = PDosHop /\ (k = KDosPolicy \/ k = KDosLogConf)).
+Proof. unfold dos_dep. destruct (nonempty ref); [apply dos_chain_kinds|contradiction]. Qed.
+
+Lemma dos_ref_matches_nsname d ref ky : nsname (d_ns d) ref = ky -> dos_ref_matches d ref ky = true.
+Proof.
+  unfold nsname, dos_ref_matches. destruct (contains slash ref); intros <-; rewrite eqb_refl'; [reflexivity|apply orb_true_r].
+Qed.
+
+Lemma dos_chain_cases cl pd owner ref p k ky ns name :
+  cluster_wf cl -> valid_name ns -> valid_name name ->
+  In (p, (k, ky)) (dos_chain cl pd owner ref) -> ky = key ns name ->
+  (k = KDos /\ ref_matches owner ns name ref = true) \/
+  ((k = KDosPolicy \/ k = KDosLogConf) /\
+   exists d, In d (dos_referencing cl k (key ns name)) /\ ref_matches owner (d_ns d) (d_name d) ref = true).
+Proof.
+  intros WF0 Vns Vname H Hk. destruct WF0 as [_ WF]. unfold dos_chain in H. destruct H as [H|H].
+  - left. injection H as _ <- E. split; [reflexivity|]. apply ref_matches_nsname; try assumption. rewrite E. exact Hk.
+  - right. unfold dos_hops in H. destruct (lookup_dos cl (nsname owner ref)) as [d|] eqn:L; [|contradiction].
+    unfold lookup_dos in L. apply find_some in L. destruct L as [Hin Heq]. apply String.eqb_eq in Heq.
+    destruct (WF d Hin) as [W1 W2].
+    assert (ref_matches owner (d_ns d) (d_name d) ref = true) as RM
+        by (apply ref_matches_nsname; try assumption; symmetry; exact Heq).
+    destruct (d_valid d); [|contradiction].
+    apply in_map_iff in H. destruct H as [x [E H]]. injection E as _ E. subst x.
+    apply take_until_fail_In in H. unfold dos_hop_items in H. apply in_app_or in H. destruct H as [H|H].
+    + destruct (nonempty (d_policy d)); [|contradiction]. destruct H as [H|[]]. injection H as <- E.
+      split; [auto|]. exists d. split; [|exact RM]. unfold dos_referencing. apply filter_In. split; [exact Hin|].
+      apply dos_ref_matches_nsname. rewrite E. exact Hk.
+    + destruct (d_logconf d) as [l|] eqn:DL; [|contradiction]. destruct (nonempty l); [|contradiction].
+      destruct H as [H|[]]. injection H as <- E.
+      split; [auto|]. exists d. split; [|exact RM]. unfold dos_referencing. apply filter_In. split; [exact Hin|].
+      rewrite DL. apply dos_ref_matches_nsname. rewrite E. exact Hk.
+Qed.
+
+Lemma dos_dep_reach e cl pd owner ref r p k ky ns name :
+  cluster_wf cl ->
+  (forall ns name, ref_matches owner ns name ref = true -> finds dos_checker ns name r = true) ->
+  valid_name ns -> valid_name name ->
+  In (p, (k, ky)) (dos_dep cl pd owner ref) -> ky = key ns name ->
+  reaches e cl k ns name r = true.
+Proof.
+  intros WF Seen Vns Vname H Hk. unfold dos_dep in H. destruct (nonempty ref); [|contradiction].
+  destruct (dos_chain_cases _ _ _ _ _ _ _ _ _ WF Vns Vname H Hk) as [[-> RM]|[K [d [Hd RM]]]].
+  - simpl. apply Seen. exact RM.
+  - assert (via_dos (dos_referencing cl k (key ns name)) r = true) as V
+        by (unfold via_dos; apply existsb_exists; exists d; split; [exact Hd|apply Seen; exact RM]).
+    destruct K as [->| ->]; exact V.
 Qed.
 
 Lemma endpoints_dep_In cl pp ky0 p k ky :
@@ -324,8 +387,7 @@ Lemma route_deps_reach e cl pp pd owner rt r p k ky ns name :
 Proof.
   intros WF Seen SeenDos Vns Vname H Hk. unfold route_deps in H. apply in_app_or in H. destruct H as [H|H].
   - eapply policy_deps_reach; eassumption.
-  - apply dos_dep_In in H. destruct H as [-> E]. simpl. apply SeenDos.
-    apply ref_matches_nsname; try assumption. rewrite <- E. exact Hk.
+  - eapply dos_dep_reach; eassumption.
 Qed.
 
 Lemma existsb_intro {A} (f : A -> bool) l x : In x l -> f x = true -> existsb f l = true.
@@ -349,8 +411,8 @@ Proof.
     intros n1 n2 R. simpl. rewrite R. reflexivity. }
   apply in_app_or in H. destruct H as [H|H].
   { (* spec dos *)
-    apply dos_dep_In in H. destruct H as [-> E]. simpl.
-    rewrite (ref_matches_nsname (vs_ns v) (vs_dos v) ns name Vns Vname); [reflexivity|]. rewrite <- E. exact Hk. }
+    eapply dos_dep_reach; try eassumption.
+    intros n1 n2 R. simpl. rewrite R. reflexivity. }
   apply in_app_or in H. destruct H as [H|H].
   { (* upstreams *)
     apply in_flat_map in H. destruct H as [u [Hu H]]. apply upstream_cases in H.
@@ -456,7 +518,7 @@ Proof.
 Qed.
 
 (* what one Ingress contributes, as master / regular Ingress (minion = false) or as a minion *)
-Definition ing_goal (e : env) (minion : bool) (k : kind) (ns name : string) (i : ingress) : Prop :=
+Definition ing_goal (e : env) (cl : cluster) (minion : bool) (k : kind) (ns name : string) (i : ingress) : Prop :=
   match k with
   | KSecret => (if minion then ck_minion (secret_checker e) ns name i else ck_ing (secret_checker e) ns name i) = true
   | KService => ck_ing (service_checker e false) ns name i = true
@@ -464,14 +526,17 @@ Definition ing_goal (e : env) (minion : bool) (k : kind) (ns name : string) (i :
   | KApPolicy => minion = false /\ ck_ing (ap_checker i_ap_policy) ns name i = true
   | KApLogConf => minion = false /\ ck_ing (ap_checker i_ap_logconf) ns name i = true
   | KDos => minion = false /\ ck_ing dos_checker ns name i = true
+  | KDosPolicy | KDosLogConf =>
+      minion = false /\
+      existsb (fun d => ck_ing dos_checker (d_ns d) (d_name d) i) (dos_referencing cl k (key ns name)) = true
   | KPolicy => False
   end.
 
-Lemma ing_service_goal e minion i svc k ky ns name :
+Lemma ing_service_goal e cl minion i svc k ky ns name :
   valid_name ns -> valid_name name ->
   ing_services svc i = true ->
   ky = key (i_ns i) svc -> (k = KService \/ (k = KEndpoints /\ i_use_cluster_ip i = false)) -> ky = key ns name ->
-  ing_goal e minion k ns name i.
+  ing_goal e cl minion k ns name i.
 Proof.
   intros Vns Vname Hs E K Hk. rewrite Hk in E. symmetry in E. apply secret_field_key in E; try assumption.
   destruct E as [E1 E2]. subst svc.
@@ -481,11 +546,11 @@ Proof.
 Qed.
 
 Theorem ing_reach e cl minion i p k ky ns name :
-  valid_name ns -> valid_name name -> (minion = true -> i_tls i = []) ->
+  cluster_wf cl -> valid_name ns -> valid_name name -> (minion = true -> i_tls i = []) ->
   In (p, (k, ky)) (consulted_ing e cl minion i) -> ky = key ns name ->
-  ing_goal e minion k ns name i.
+  ing_goal e cl minion k ns name i.
 Proof.
-  intros Vns Vname Htls H Hk. unfold consulted_ing in H.
+  intros WF Vns Vname Htls H Hk. unfold consulted_ing in H.
   apply in_app_or in H. destruct H as [H|H].
   { (* TLS *)
     apply in_map_iff in H. destruct H as [s [E Hs]]. dep_inj E Hk Eky.
@@ -535,8 +600,12 @@ Proof.
     (* dos annotation *)
     destruct (dos_enabled e && negb minion) eqn:A; [|contradiction].
     apply andb_true_iff in A. destruct A as [_ A]. apply negb_true_iff in A. subst minion.
-    destruct (i_dos i) as [v|] eqn:D; [|contradiction]. destruct H as [H|[]]. dep_inj H Hk Eky.
-    simpl. split; [reflexivity|]. rewrite D. apply ref_matches_nsname; assumption. }
+    destruct (i_dos i) as [v|] eqn:D; [|contradiction].
+    destruct (dos_chain_cases _ _ _ _ _ _ _ _ _ WF Vns Vname H Hk) as [[-> RM]|[K [d [Hd RM]]]].
+    - simpl. split; [reflexivity|]. rewrite D. exact RM.
+    - assert (existsb (fun d0 => ck_ing dos_checker (d_ns d0) (d_name d0) i) (dos_referencing cl k (key ns name)) = true) as V
+          by (apply existsb_exists; exists d; split; [exact Hd|simpl; rewrite D; exact RM]).
+      destruct K as [->| ->]; simpl; auto. }
   apply in_app_or in H. destruct H as [H|H].
   { (* default backend *)
     destruct (i_default i) as [s|] eqn:DB; [|contradiction].
@@ -564,7 +633,7 @@ Theorem consulted_reachable_partial :
     reaches e cl k ns name r = true.
 Proof.
   intros e cl r p k ky ns name WF RWF Vns Vname H NR Hk. destruct r as [i|m ms|v|t]; simpl in H.
-  - pose proof (ing_reach e cl false i p k ky ns name Vns Vname (fun X => ltac:(discriminate X)) H Hk) as G.
+  - pose proof (ing_reach e cl false i p k ky ns name WF Vns Vname (fun X => ltac:(discriminate X)) H Hk) as G.
     destruct k; simpl in G |- *.
     + rewrite G. reflexivity.
     + exact G.
@@ -573,8 +642,10 @@ Proof.
     + destruct G as [_ G]. rewrite G. reflexivity.
     + destruct G as [_ G]. rewrite G. reflexivity.
     + destruct G as [_ G]. exact G.
+    + destruct G as [_ G]. exact G.
+    + destruct G as [_ G]. exact G.
   - apply in_app_or in H. destruct H as [H|H].
-    + pose proof (ing_reach e cl false m p k ky ns name Vns Vname (fun X => ltac:(discriminate X)) H Hk) as G.
+    + pose proof (ing_reach e cl false m p k ky ns name WF Vns Vname (fun X => ltac:(discriminate X)) H Hk) as G.
       destruct k; simpl in G |- *.
       * rewrite G. reflexivity.
       * rewrite G. reflexivity.
@@ -583,8 +654,12 @@ Proof.
       * destruct G as [_ G]. rewrite G. reflexivity.
       * destruct G as [_ G]. rewrite G. reflexivity.
       * destruct G as [_ G]. rewrite G. reflexivity.
+      * destruct G as [_ G]. apply existsb_exists in G. destruct G as [d [Hd G]].
+        unfold via_dos. apply existsb_exists. exists d. split; [exact Hd|]. simpl. simpl in G. rewrite G. reflexivity.
+      * destruct G as [_ G]. apply existsb_exists in G. destruct G as [d [Hd G]].
+        unfold via_dos. apply existsb_exists. exists d. split; [exact Hd|]. simpl. simpl in G. rewrite G. reflexivity.
     + apply in_flat_map in H. destruct H as [mi [Hmi H]].
-      pose proof (ing_reach e cl true mi p k ky ns name Vns Vname (fun _ => RWF mi Hmi) H Hk) as G.
+      pose proof (ing_reach e cl true mi p k ky ns name WF Vns Vname (fun _ => RWF mi Hmi) H Hk) as G.
       destruct k; simpl in G |- *.
       * apply orb_true_iff. left. apply orb_true_iff. right. eapply existsb_intro; [exact Hmi|exact G].
       * apply orb_true_iff. right. eapply existsb_intro; [exact Hmi|exact G].
@@ -592,6 +667,8 @@ Proof.
         -- apply orb_true_iff. right. eapply existsb_intro; [exact Hmi|exact G1].
         -- apply orb_true_iff. left. eapply existsb_intro; [exact Hmi|exact G2].
       * contradiction.
+      * destruct G as [G _]. discriminate.
+      * destruct G as [G _]. discriminate.
       * destruct G as [G _]. discriminate.
       * destruct G as [G _]. discriminate.
       * destruct G as [G _]. discriminate.
@@ -618,7 +695,8 @@ Proof.
         destruct (Nat.eqb _ _); [|contradiction].
         apply in_map_iff in H. destruct H as [x [E _]]. injection E as <- E. destruct x. injection E as <- _. reflexivity.
     + destruct (dos_enabled e && negb minion); [|contradiction].
-      destruct (i_dos i); [|contradiction]. destruct H as [H|[]]. injection H as <- <- _. reflexivity.
+      destruct (i_dos i); [|contradiction].
+      apply dos_chain_kinds in H. destruct H as [[-> ->]|[-> [->| ->]]]; reflexivity.
   - destruct (i_default i); [|contradiction]. unfold backend_deps in H. destruct H as [H|H].
     + injection H as <- <- _. reflexivity.
     + destruct (i_use_cluster_ip i); [contradiction|]. apply endpoints_dep_In in H. destruct H as [-> [-> _]]. reflexivity.
@@ -710,7 +788,7 @@ Lemma route_deps_no_endpoints cl pp pd owner rt p ky :
 Proof.
   intros H. unfold route_deps in H. apply in_app_or in H. destruct H as [H|H].
   - exact (policy_deps_no_endpoints _ _ _ _ _ _ _ H).
-  - apply dos_dep_In in H. destruct H as [E _]. discriminate E.
+  - apply dos_dep_kinds in H. destruct H as [[_ E]|[_ [E|E]]]; discriminate E.
 Qed.
 
 Lemma upstream_deps_svc cl pu pb ns0 bns u p ky :
@@ -748,7 +826,7 @@ Proof.
         apply in_map_iff in H. destruct H as [x [E H]]. injection E as _ E. subst x.
         apply take_until_fail_In in H. apply in_map_iff in H. destruct H as [c [E _]]. discriminate E.
     + destruct (dos_enabled e && negb minion); [|contradiction].
-      destruct (i_dos i); [|contradiction]. destruct H as [H|[]]. discriminate H.
+      destruct (i_dos i); [|contradiction]. apply dos_chain_kinds in H. destruct H as [[_ E]|[_ [E|E]]]; discriminate E.
   - destruct (i_default i); [|contradiction]. eapply backend_deps_svc; exact H.
   - apply in_flat_map in H. destruct H as [rl [_ H]]. destruct (ir_host_valid rl); [|contradiction].
     destruct (ir_paths rl); [|contradiction]. apply in_flat_map in H. destruct H as [pa [_ H]].
@@ -766,7 +844,7 @@ Proof.
     apply in_app_or in H. destruct H as [H|H].
     { destruct (vs_tls v) as [s|]; [|contradiction]. destruct (nonempty s); [|contradiction]. destruct H as [H|[]]. discriminate H. }
     apply in_app_or in H. destruct H as [H|H]; [exfalso; exact (policy_deps_no_endpoints _ _ _ _ _ _ _ H)|].
-    apply in_app_or in H. destruct H as [H|H]; [apply dos_dep_In in H; destruct H as [E _]; discriminate E|].
+    apply in_app_or in H. destruct H as [H|H]; [apply dos_dep_kinds in H; destruct H as [[_ E]|[_ [E|E]]]; discriminate E|].
     apply in_app_or in H. destruct H as [H|H].
     { apply in_flat_map in H. destruct H as [u [_ H]]. eapply upstream_deps_svc; exact H. }
     apply in_app_or in H. destruct H as [H|H].
@@ -865,7 +943,7 @@ Qed.
 
 Ltac witness := repeat match goal with
   | |- _ /\ _ => split
-  | |- cluster_wf _ => intros ? []
+  | |- cluster_wf _ => split; intros ? []
   | |- resource_wf _ => exact I
   | |- valid_name _ => apply valid_nameb_ok; reflexivity
   | |- In _ _ => in_list
@@ -879,7 +957,7 @@ Definition up (svc bak : string) : upstream :=
 
 Definition cl0 : cluster :=
   {| cl_policies := []; cl_secrets_ok := []; cl_ap_ok := [];
-     cl_services := [("ns1/main", SvcPods); ("ns1/bak", SvcExternalName); ("ns1/podbak", SvcPods)] |}.
+     cl_services := [("ns1/main", SvcPods); ("ns1/bak", SvcExternalName); ("ns1/podbak", SvcPods)]; cl_dos := [] |}.
 
 (* F19a: VirtualServerRoute upstream with a backup Service *)
 Definition vs_f19a : resource :=
